@@ -615,8 +615,7 @@ class Live:
             want = {(sl.onames(f.concepts()[u][0]), sl.pnames(f.concepts()[u][1]))
                     for u in f.upper_covers(ci)}
             got = call(ctx.neighbors, self.arg(names))
-            ok = got.ok and isinstance(got.value, list) and len(got.value) == len(set(got.value)) \
-                and set(got.value) == want
+            ok = got.ok and len(got.value) == len(set(got.value)) and set(got.value) == want
             rec.check('C05.neighbors_eq_upper_covers', ok,
                       lambda: f'neighbors({names!r}) = {got.text()} model {sorted(want)!r} rows={f.rows} labels={sl.objs}')
             if got.ok:
@@ -639,9 +638,9 @@ class Live:
         for c in ms:
             k = f.index_of(sl.omask(c.extent))
             for attr, cov in (('upper_neighbors', f.upper_covers(k)), ('lower_neighbors', f.lower_covers(k))):
-                got = getattr(c, attr)
+                got = list(getattr(c, attr))
                 want = [table[cs[j][0]] for j in cov]
-                ok = (isinstance(got, tuple) and len(got) == len(want)
+                ok = (len(got) == len(want)
                       and all(any(g is w for w in want) for g in got)
                       and all(any(g is w for g in got) for w in want))
                 rec.check(f'C05.{attr[:5]}_eq_covers', ok,
@@ -831,13 +830,11 @@ class Live:
             lt = self.lattice_of(sl, ev[2], kind)
             ms = self.members(lt[0])
             out = call(lt[0].__getitem__, slice(ev[3], ev[4]))
-            want = ms[ev[3]:ev[4]]
-            rec.check('C02.lattice_slice', out.ok and len(out.value) == len(want)
-                      and all(a is b for a, b in zip(out.value, want)),
-                      lambda: f'lattice[{ev[3]}:{ev[4]}] = {out.text()[:300]}')
-            rec.log(canon([c.extent for c in out.value]) if out.ok else out.text())
-            if out.ok:
-                core.scramble(out.value)   # the caller sorts/truncates its list
+            # slices are outside the statement: the result is only logged; what matters is that the caller
+            # may sort/truncate whatever list it got without the lattice noticing
+            rec.log(call(lambda: canon([c.extent for c in out.value])).text() if out.ok else out.text())
+            if out.ok and isinstance(out.value, list):
+                core.scramble(out.value)
                 rec.fault('caller_mutates_result')
             return (s,)
         if kind == 'ctx_copy':
